@@ -7,9 +7,22 @@ Import ListNotations.
 (* one forced schedule on one condition-variable queue (q.Q, async.Q, mux.Q: KPipe; mq.MQ: KMQ; syncq.SyncQueue:
    KSync), or on one priq.PriQueue: the fully resolved label sequence, the result of every call, and what was
    observed at every quiescent point *)
+(* the observation that ends (or interrupts) a protocol-following stress run - consumers running the documented
+   protocol for millions of rounds, a producer adding the next item the moment the previous one was taken: how many
+   items were accepted and not yet taken, how many of the consumers were positively seen parked (in cond.Wait inside
+   the queue's package / in the select on WaitCh()) while no call was in progress, and whether the wait channel was
+   readable (PriQueue; false for the condition-variable queues) *)
+Record stress := { s_rounds : Z; s_consumers : nat; s_outstanding : nat; s_parked : nat; s_token : bool }.
+
+(* what the models admit at such a point (c13_quiescent_parked_means_open_empty, c13_pri_no_lost_wakeup): an item is
+   outstanding only if some consumer is not parked, or the token is readable *)
+Definition stress_ok (o : stress) : bool :=
+  Nat.eqb (s_outstanding o) 0 || s_token o || Nat.ltb (s_parked o) (s_consumers o).
+
 Inductive case :=
 | CCond (c : cfg) (tr : list event)
-| CPri (cap : Z) (n : nat) (tr : list pevent).
+| CPri (cap : Z) (n : nat) (tr : list pevent)
+| CStress (pri : bool) (o : stress).
 
 (* the implementation behaved exactly as a run of the model: the label sequence is enabled step by step, every call
    returned what the model returns, every quiescent observation (who has returned what, who is parked, Len /
@@ -18,6 +31,7 @@ Definition case_accept (c : case) : bool :=
   match c with
   | CCond g tr => cond_accept g tr
   | CPri cap n tr => pri_accept cap n tr
+  | CStress _ o => stress_ok o
   end.
 
 (* the property's clauses on the observations alone *)
@@ -25,9 +39,10 @@ Definition case_holds (c : case) : bool :=
   match c with
   | CCond g tr => cond_holds g tr
   | CPri cap n tr => pri_holds tr
+  | CStress _ o => stress_ok o
   end.
 
 Theorem case_sound : forall c, case_accept c = true -> case_holds c = true.
 Proof.
-  intros [g tr|cap n tr] H; cbn in *; [now apply cond_accept_sound|now apply (pri_accept_sound cap n)].
+  intros [g tr|cap n tr|pri o] H; cbn in *; [now apply cond_accept_sound|now apply (pri_accept_sound cap n)|exact H].
 Qed.
